@@ -337,8 +337,8 @@ func failCmd(c *exec.Cmd) {
 	c.Err = nil
 }
 
-func cmdGate(site string, c *exec.Cmd) {
-	d := gateArgs(site, "exec", c.Path, c.Args)
+func cmdGate(site, op string, c *exec.Cmd) {
+	d := gateArgs(site, op, c.Path, c.Args)
 	if d.D == "toolfail" || d.D == "fail" {
 		failCmd(c)
 	}
@@ -358,7 +358,7 @@ func Cmd_Run(site string, c *exec.Cmd) error {
 	if !active {
 		return c.Run()
 	}
-	cmdGate(site, c)
+	cmdGate(site, "exec", c)
 	err := c.Run()
 	roundTrip(Msg{T: "ev", Site: site, Op: "exec-done", Path: c.Path, Code: exitCode(err)})
 	return err
@@ -368,7 +368,7 @@ func Cmd_Output(site string, c *exec.Cmd) ([]byte, error) {
 	if !active {
 		return c.Output()
 	}
-	cmdGate(site, c)
+	cmdGate(site, "exec", c)
 	out, err := c.Output()
 	roundTrip(Msg{T: "ev", Site: site, Op: "exec-done", Path: c.Path, Code: exitCode(err)})
 	return out, err
@@ -378,7 +378,7 @@ func Cmd_CombinedOutput(site string, c *exec.Cmd) ([]byte, error) {
 	if !active {
 		return c.CombinedOutput()
 	}
-	cmdGate(site, c)
+	cmdGate(site, "exec", c)
 	out, err := c.CombinedOutput()
 	roundTrip(Msg{T: "ev", Site: site, Op: "exec-done", Path: c.Path, Code: exitCode(err)})
 	return out, err
@@ -388,7 +388,7 @@ func Cmd_Start(site string, c *exec.Cmd) error {
 	if !active {
 		return c.Start()
 	}
-	cmdGate(site, c)
+	cmdGate(site, "exec-start", c)
 	err := c.Start()
 	// The caller now reads from the child's pipes; it counts as running until
 	// its next event.
